@@ -261,6 +261,9 @@ func runWatched(eng Engine, plan *Plan, out *workerOut) *Result {
 		buf := make([]byte, 1<<22)
 		n := runtime.Stack(buf, true)
 		site := hangSite(string(buf[:n]))
+		if d := os.Getenv("VERIF_HANGDUMP"); d != "" {
+			_ = os.WriteFile(d, buf[:n], 0o644)
+		}
 		out.Violation = &Violation{Prop: plan.Prop, Clause: "hang", Class: "hang/" + site, Step: -1,
 			Detail: fmt.Sprintf("run did not finish within %v of real time; a goroutine of the system is blocked on a lock at %s", *fHang, site)}
 		out.ViolPlan = plan
